@@ -268,12 +268,16 @@ var c18NearKinds = []string{"upper", "mixed", "digit0", "digit19", "digit39", "t
 type c18Entry struct {
 	body string
 	kind string // correct | one of c18NearKinds | blank-after | blank-before
+	cvs  c18Cvs // the CVS state of the package directory and of patches/
 }
 
 // c18CheckEntries drives CheckLinesDistinfo (shim) on a package with one patch and
 // one SHA1 entry, in default and in --autofix mode, against the reference digest
 // (Go SHA-1 of the extracted makepatchsum_filter of the raw file bytes) and the
-// extracted check_patch_sha1.
+// extracted check_entry_cvs (the CVS gate in front of check_patch_sha1), in the
+// CVS working-copy state e.cvs: the verdict about the hash must be the same in
+// every state, the warning "registered in distinfo but not added to CVS" must
+// appear exactly when distinfo is committed and the patch is not.
 func c18CheckEntries(ctx *Ctx, res *Result, entries []c18Entry) {
 	root, cleanup := c18ScratchDir(ctx, "c18unit")
 	defer cleanup()
@@ -294,7 +298,8 @@ func c18CheckEntries(ctx *Ctx, res *Result, entries []c18Entry) {
 	}
 	const head = "$NetBSD$\n\n"
 	var chkReqs []string
-	var chkWant []string
+	var chkWant [][]string
+	var chkRep []map[string]any
 	for i, e := range entries {
 		f := strings.Fields(ans[i])
 		if len(f) != 2 {
@@ -319,7 +324,15 @@ func c18CheckEntries(ctx *Ctx, res *Result, entries []c18Entry) {
 		line := "SHA1 (patch-aa) = " + sep1 + hash + sep2 + "\n"
 		distinfo := head + line
 		rep := map[string]any{"kind": "entry", "body": hx(e.body), "entry": e.kind, "distinfo": hx(distinfo), "makepatchsum": ref}
+		e.cvs.replay(rep)
 		size := 1 + len(e.body)
+		if !e.cvs.isNone() {
+			size += 5 // a replay without CVS files is preferred
+		}
+		if err := e.cvs.write(pkgDir); err != nil {
+			res.Broken = err.Error()
+			return
+		}
 		if err := os.WriteFile(patchPath, []byte(e.body), 0o644); err != nil {
 			res.Broken = err.Error()
 			return
@@ -333,8 +346,30 @@ func c18CheckEntries(ctx *Ctx, res *Result, entries []c18Entry) {
 			continue
 		}
 		rep["output"], rep["output_autofix"], rep["after_autofix"] = q(out1), q(out2), q(after2)
-		reported := strings.Contains(out1, "distinfo:3:")
+		sev := c18DiagsBySeverity(out1)[3]
+		reported := sev.hashReported()
+		warned := sev.cvsWarned()
+		wantWarn := e.cvs.wantWarn(0) && !strings.HasPrefix(e.kind, "blank") // a line that is no entry never reaches the gate
 		res.Count("entry."+e.kind, 1)
+		res.Count("cvs.class."+e.cvs.class(0), 1)
+		if !strings.HasPrefix(e.kind, "blank") {
+			res.Count(fmt.Sprintf("cvs.warn_expected=%v.hash_right=%v", wantWarn, e.kind == "correct"), 1)
+			if warned && reported {
+				res.Count("cvs.warning_and_hash_error_on_one_line", 1)
+			}
+			if warned != wantWarn {
+				key := "C18/cvs/uncommitted-warning-missing"
+				if warned {
+					key = "C18/cvs/uncommitted-warning-spurious"
+				}
+				res.AddViolation(Violation{Key: key,
+					What: fmt.Sprintf("CVS state %s (package CVS/Entries %s, Entries.Log %s; patches/CVS/Entries %s, Entries.Log %s): distinfo committed=%v, patch-aa committed=%v, so the warning 'registered in distinfo but not added to CVS' is %s; pkglint prints: %s",
+						e.cvs.class(0), c18Show(e.cvs.pkgE), c18Show(e.cvs.pkgL), c18Show(e.cvs.patE), c18Show(e.cvs.patL),
+						c18DistinfoCommitted(e.cvs.pkgClass), c18PatchCommitted(e.cvs.patDir, e.cvs.statusOf(0)),
+						map[bool]string{true: "due", false: "not due"}[wantWarn], q(c18GrepAll(out1, "distinfo:3:"))),
+					FoundInput: true, Size: size, Replay: rep})
+			}
+		}
 		res.Evaluations += 2
 		res.TracesValidated += 2
 		if after1 != distinfo {
@@ -368,7 +403,7 @@ func c18CheckEntries(ctx *Ctx, res *Result, entries []c18Entry) {
 			want := head + "SHA1 (patch-aa) = " + ref + "\n"
 			if !reported {
 				res.AddViolation(Violation{Key: "C18/accept/wrong-hash-silent",
-					What:       fmt.Sprintf("patch %q: distinfo records %s (%s variant of the makepatchsum digest %s), pkglint is silent", e.body, hash, e.kind, ref),
+					What:       fmt.Sprintf("patch %q, CVS state %s: distinfo records %s (%s variant of the makepatchsum digest %s), pkglint does not report the hash: %s", e.body, e.cvs.class(0), hash, e.kind, ref, q(c18GrepAll(out1, "distinfo:3:"))),
 					FoundInput: true, Size: size, Replay: rep})
 			} else if after2 != want {
 				key := "C18/fix/wrote-other-digest"
@@ -379,9 +414,12 @@ func c18CheckEntries(ctx *Ctx, res *Result, entries []c18Entry) {
 					What:       fmt.Sprintf("patch %q, entry %q (%s): after -F distinfo is %q, expected %q", e.body, line, e.kind, after2, want),
 					FoundInput: true, Size: size, Replay: rep})
 			}
-			// the model's verdict for the same triple
-			chkReqs = append(chkReqs, "chk "+hx(e.body)+" "+hx(hash)+" "+hx(ref))
-			chkWant = append(chkWant, fmt.Sprintf("%v|%s|%s", reported, e.body, hash))
+		}
+		if !strings.HasPrefix(e.kind, "blank") {
+			// the model's gate for the same patch, hash and CVS state
+			chkReqs = append(chkReqs, e.cvs.request("patch-aa", "SHA1", e.body, hash, ref))
+			chkWant = append(chkWant, []string{fmt.Sprint(reported), e.body, hash, fmt.Sprint(warned), e.cvs.class(0)})
+			chkRep = append(chkRep, rep)
 		}
 	}
 	if len(chkReqs) > 0 {
@@ -391,13 +429,32 @@ func c18CheckEntries(ctx *Ctx, res *Result, entries []c18Entry) {
 			return
 		}
 		for i, a := range cans {
-			parts := strings.SplitN(chkWant[i], "|", 3)
-			modelReports := strings.HasPrefix(a, "differs ")
+			parts := chkWant[i]
+			f := strings.Fields(a)
+			if len(f) < 2 || (f[0] != "0" && f[0] != "1") || (f[1] != "silent" && f[1] != "differs") {
+				res.Broken = "oracle answer " + q(a) + " to " + q(chkReqs[i])
+				return
+			}
+			modelReports := f[1] == "differs"
 			if (parts[0] == "true") != modelReports {
+				r := map[string]any{}
+				for k, v := range chkRep[i] {
+					r[k] = v
+				}
+				r["broken"] = "correspondence checkUncommittedPatch/checkPatchSha1 = Model.PatchSum.check_entry_cvs (verdict)"
 				res.AddViolation(Violation{Key: "C18/correspondence/check",
-					What:       fmt.Sprintf("patch %q hash %s: implementation reported=%s, model %s", parts[1], parts[2], parts[0], a),
-					FoundInput: false, Size: 1 + len(parts[1]),
-					Replay:     map[string]any{"kind": "entry-model", "body": hx(parts[1]), "hash": parts[2], "broken": "correspondence checkPatchSha1 = Model.PatchSum.check_patch_sha1"}})
+					What:       fmt.Sprintf("patch %q hash %s, CVS state %s: implementation reported=%s, model %s", parts[1], parts[2], parts[4], parts[0], a),
+					FoundInput: false, Size: 1 + len(parts[1]), Replay: r})
+			}
+			if (parts[3] == "true") != (f[0] == "1") {
+				r := map[string]any{}
+				for k, v := range chkRep[i] {
+					r[k] = v
+				}
+				r["broken"] = "correspondence checkUncommittedPatch = Model.PatchSum.check_entry_cvs (warning)"
+				res.AddViolation(Violation{Key: "C18/correspondence/gate",
+					What:       fmt.Sprintf("patch %q hash %s, CVS state %s: implementation warned=%s, model %s", parts[1], parts[2], parts[4], parts[3], a),
+					FoundInput: false, Size: 1 + len(parts[1]), Replay: r})
 			}
 		}
 	}
@@ -535,6 +592,7 @@ type c18Patch struct {
 type c18Scenario struct {
 	patches []c18Patch
 	kind    string
+	cvs     c18Cvs
 }
 
 func (sc c18Scenario) distinfo() string {
@@ -551,7 +609,9 @@ func (sc c18Scenario) replay() map[string]any {
 	for _, p := range sc.patches {
 		ps = append(ps, map[string]any{"name": p.name, "body": hx(p.body), "hash": p.hash, "kind": p.kind})
 	}
-	return map[string]any{"kind": "package", "scenario": sc.kind, "patches": ps}
+	rep := map[string]any{"kind": "package", "scenario": sc.kind, "patches": ps}
+	sc.cvs.replay(rep)
+	return rep
 }
 
 func c18RunPkglint(ctx *Ctx, root string, args ...string) (out string, exit int, err error) {
@@ -572,18 +632,6 @@ func c18RunPkglint(ctx *Ctx, root string, args ...string) (out string, exit int,
 	return string(b), 0, nil
 }
 
-var c18DiagRe = regexp.MustCompile(`(?m)^(ERROR|WARN|NOTE): cat/pkg/distinfo:(\d+)(?:--\d+)?: `)
-
-// lines of distinfo that carry a diagnostic
-func c18DistinfoDiags(out string) map[int]bool {
-	m := map[int]bool{}
-	for _, g := range c18DiagRe.FindAllStringSubmatch(out, -1) {
-		n, _ := strconv.Atoi(g[2])
-		m[n] = true
-	}
-	return m
-}
-
 // c18RunScenario: default run, -F, default run on one package; the reference
 // digests come from refDigest (SHA-1 of the extracted makepatchsum_filter).
 func c18RunScenario(ctx *Ctx, res *Result, root string, sc c18Scenario, refDigest func(string) (string, error)) {
@@ -599,6 +647,10 @@ func c18RunScenario(ctx *Ctx, res *Result, root string, sc c18Scenario, refDiges
 			return
 		}
 	}
+	if err := sc.cvs.write(filepath.Join(root, "cat/pkg")); err != nil {
+		res.Broken = err.Error()
+		return
+	}
 	distinfoPath := filepath.Join(root, "cat/pkg/distinfo")
 	before := sc.distinfo()
 	if err := os.WriteFile(distinfoPath, []byte(before), 0o644); err != nil {
@@ -608,6 +660,9 @@ func c18RunScenario(ctx *Ctx, res *Result, root string, sc c18Scenario, refDiges
 	size := 0
 	for _, p := range sc.patches {
 		size += 20 + len(p.body)
+	}
+	if !sc.cvs.isNone() {
+		size += 5
 	}
 	viol := func(key, what string, extra map[string]any) {
 		rep := sc.replay()
@@ -625,7 +680,7 @@ func c18RunScenario(ctx *Ctx, res *Result, root string, sc c18Scenario, refDiges
 		res.Sample(map[string]any{"run_failed": q(out1), "scenario": sc.replay()})
 		return
 	}
-	diag1 := c18DistinfoDiags(out1)
+	sev1 := c18DiagsBySeverity(out1)
 	for i, p := range sc.patches {
 		ref, err := refDigest(p.body)
 		if err != nil {
@@ -633,14 +688,32 @@ func c18RunScenario(ctx *Ctx, res *Result, root string, sc c18Scenario, refDiges
 			return
 		}
 		line := firstEntry + i
+		reported, warned := sev1[line].hashReported(), sev1[line].cvsWarned()
+		if !strings.HasPrefix(p.kind, "blank") { // a line that is no entry never reaches the gate
+			wantWarn := sc.cvs.wantWarn(i)
+			res.Count("w.cvs.class."+sc.cvs.class(i), 1)
+			res.Count(fmt.Sprintf("w.cvs.warn_expected=%v.hash_right=%v", wantWarn, p.hash == ref), 1)
+			if warned && reported {
+				res.Count("w.cvs.warning_and_hash_error_on_one_line", 1)
+			}
+			if warned != wantWarn {
+				key := "C18/cvs/uncommitted-warning-missing"
+				if warned {
+					key = "C18/cvs/uncommitted-warning-spurious"
+				}
+				viol(key, fmt.Sprintf("%s, CVS state %s: the warning 'registered in distinfo but not added to CVS' is %s at distinfo:%d; pkglint prints: %s",
+					p.name, sc.cvs.class(i), map[bool]string{true: "due", false: "not due"}[wantWarn], line, q(c18GrepAll(out1, fmt.Sprintf("distinfo:%d:", line)))),
+					map[string]any{"output": q(out1)})
+			}
+		}
 		switch {
-		case p.hash == ref && diag1[line]:
+		case p.hash == ref && reported:
 			viol("C18/accept/correct-hash-reported",
 				fmt.Sprintf("%s has the makepatchsum digest %s in distinfo:%d but pkglint reports: %s", p.name, ref, line, c18Grep(out1, fmt.Sprintf("distinfo:%d:", line))),
 				map[string]any{"output": q(out1)})
-		case p.hash != ref && !diag1[line]:
+		case p.hash != ref && !reported:
 			viol("C18/accept/wrong-hash-silent",
-				fmt.Sprintf("%s: distinfo:%d records %s, makepatchsum gives %s, pkglint is silent", p.name, line, p.hash, ref),
+				fmt.Sprintf("%s (CVS state %s): distinfo:%d records %s, makepatchsum gives %s, pkglint does not report the hash", p.name, sc.cvs.class(i), line, p.hash, ref),
 				map[string]any{"output": q(out1)})
 		}
 		if strings.HasPrefix(p.kind, "near:") {
@@ -750,10 +823,10 @@ func c18RunScenario(ctx *Ctx, res *Result, root string, sc c18Scenario, refDiges
 		res.Count("w.run_failed", 1)
 		return
 	}
-	diag3 := c18DistinfoDiags(out3)
+	sev3 := c18DiagsBySeverity(out3)
 	for i, p := range sc.patches {
 		line := firstEntry + i
-		if diag3[line] && fixedOK[i] { // an entry that -F left wrong was reported above, with its cause
+		if sev3[line].hashReported() && fixedOK[i] { // an entry that -F left wrong was reported above, with its cause
 			viol("C18/fix/not-accepted-after-fix",
 				fmt.Sprintf("after -F pkglint still reports %s at distinfo:%d: %s", p.name, line, c18Grep(out3, fmt.Sprintf("distinfo:%d:", line))),
 				map[string]any{"output": q(out3), "distinfo_after": q(after)})
@@ -774,12 +847,24 @@ func c18Grep(out, needle string) string {
 	return ""
 }
 
-func c18RandomScenario(rng *Rng) c18Scenario {
+func c18GrepAll(out, needle string) string {
+	var ls []string
+	for _, l := range strings.Split(out, "\n") {
+		if strings.Contains(l, needle) {
+			ls = append(ls, l)
+		}
+	}
+	return strings.Join(ls, "\n")
+}
+
+// c18RandomScenario: scenario number i; patches and entries are random, the CVS
+// working-copy state rotates systematically through the classes.
+func c18RandomScenario(rng *Rng, i int) c18Scenario {
 	sc := c18Scenario{kind: "random"}
 	n := 1 + rng.Intn(4)
 	names := []string{"patch-aa", "patch-ab", "patch-src_file.c", "patch-configure"}
-	for i := 0; i < n; i++ {
-		p := c18Patch{name: names[i], body: c18RandomBody(rng)}
+	for k := 0; k < n; k++ {
+		p := c18Patch{name: names[k], body: c18RandomBody(rng)}
 		switch x := rng.Intn(100); {
 		case x < 30:
 			p.kind = "correct" // filled in below, needs the oracle
@@ -798,6 +883,19 @@ func c18RandomScenario(rng *Rng) c18Scenario {
 		}
 		sc.patches = append(sc.patches, p)
 	}
+	// the CVS working-copy state
+	pkgClass := []string{"none", "none", "lists-distinfo", "lists-distinfo", "lists-distinfo", "lists-distinfo",
+		"lists-other", "log-adds-distinfo", "log-removes-distinfo", "log-only"}[i%10]
+	patDir := []string{"entries", "entries", "entries", "entries", "none", "log-only"}[(i/10)%6]
+	if pkgClass == "none" && (i/10)%3 != 0 {
+		patDir = "none" // no CVS directories at all
+	}
+	var pnames, status []string
+	for j, p := range sc.patches {
+		pnames = append(pnames, p.name)
+		status = append(status, c18PatStatuses[(i/10+j)%len(c18PatStatuses)])
+	}
+	sc.cvs = c18BuildCvs(pkgClass, patDir, pnames, status)
 	return sc
 }
 
@@ -807,13 +905,24 @@ const c18ValidPatch = "$NetBSD$\n\nDoc\n\n--- a.orig\n+++ a\n@@ -1 +1 @@\n-a\n+b
 func c18DirectedScenarios() []c18Scenario {
 	crHeader := strings.Replace(c18ValidPatch, "@@ -1 +1 @@\n", "@@ -1 +1 @@\r\n", 1)
 	twin := strings.Replace(crHeader, "--- a.orig\n", "--- a.orig\n$NetBSD: x $\n", 1)
-	return []c18Scenario{
+	return []c18Scenario{ // (the zero c18Cvs writes no CVS directories)
 		{kind: "hash-in-file-name", patches: []c18Patch{{name: "patch-0000", body: c18ValidPatch, hash: "0000", kind: "wrong"}}},
 		{kind: "twin-filtered-content", patches: []c18Patch{
 			{name: "patch-aa", body: crHeader, kind: "correct"},
 			{name: "patch-ab", body: twin, kind: "correct"}}},
 		{kind: "all-lines-tagged", patches: []c18Patch{{name: "patch-aa", body: "$NetBSD$\nx$NetBSD: y $", kind: "stale"}}},
 		{kind: "empty-patch", patches: []c18Patch{{name: "patch-aa", body: "", kind: "wrong", hash: "00"}}},
+		// distinfo is in CVS, the patches are new: one entry right, one stale, one wrong
+		{kind: "new-patches-in-cvs-package", patches: []c18Patch{
+			{name: "patch-aa", body: c18ValidPatch, kind: "correct"},
+			{name: "patch-ab", body: c18ValidPatch + " context\n", kind: "stale"},
+			{name: "patch-ac", body: crHeader, kind: "wrong", hash: "0123456789abcdef0123456789abcdef01234567"}},
+			cvs: c18BuildCvs("lists-distinfo", "none", []string{"patch-aa", "patch-ab", "patch-ac"}, []string{"unlisted", "unlisted", "unlisted"})},
+		{kind: "patches-added-and-removed-in-entries-log", patches: []c18Patch{
+			{name: "patch-aa", body: c18ValidPatch, kind: "stale"},
+			{name: "patch-ab", body: c18ValidPatch + " context\n", kind: "stale"},
+			{name: "patch-ac", body: crHeader, kind: "correct"}},
+			cvs: c18BuildCvs("log-adds-distinfo", "entries", []string{"patch-aa", "patch-ab", "patch-ac"}, []string{"log-added", "log-removed", "log-add-remove"})},
 	}
 }
 
@@ -905,16 +1014,700 @@ func c18WholeRuns(ctx *Ctx, res *Result, scs []c18Scenario) {
 	wg.Wait()
 }
 
+// ---------- CVS working-copy state ----------
+
+// c18Cvs: the CVS administrative files of the package directory (CVS/Entries,
+// CVS/Entries.Log) and of patches/ (the same two); nil = the file does not exist.
+type c18Cvs struct {
+	pkgClass               string // none | lists-distinfo | lists-other | log-adds-distinfo | log-removes-distinfo | log-only
+	patDir                 string // none | entries | log-only
+	status                 []string
+	pkgE, pkgL, patE, patL *string
+}
+
+var c18PkgClasses = []string{"none", "lists-distinfo", "lists-other", "log-adds-distinfo", "log-removes-distinfo", "log-only"}
+var c18PatDirs = []string{"none", "entries", "log-only"}
+var c18PatStatuses = []string{"listed", "unlisted", "log-added", "log-removed", "log-add-remove", "relisted", "invalid-line", "dir-entry"}
+
+func c18CvsLine(name string) string { return "/" + name + "/1.1/Thu Jan  1 00:00:00 1970//\n" }
+
+func c18Ptr(s string) *string { return &s }
+
+func c18Opt(p *string) string {
+	if p == nil {
+		return "N"
+	}
+	return hx(*p)
+}
+
+func c18OptFromReplay(v any) *string {
+	s, ok := v.(string)
+	if !ok || s == "N" || s == "" {
+		return nil
+	}
+	return c18Ptr(unhx(s))
+}
+
+// by construction of the files below (not by the model)
+func c18DistinfoCommitted(pkgClass string) bool {
+	return pkgClass == "lists-distinfo" || pkgClass == "log-adds-distinfo"
+}
+func c18PatchCommitted(patDir, status string) bool {
+	return patDir == "entries" && (status == "listed" || status == "log-added" || status == "relisted")
+}
+
+// c18BuildCvs writes down the files for a class of package-directory state, a
+// class of patches-directory state and one status per patch.
+func c18BuildCvs(pkgClass, patDir string, names, status []string) c18Cvs {
+	c := c18Cvs{pkgClass: pkgClass, patDir: patDir, status: status}
+	other := c18CvsLine("DESCR") + "D/patches////\n"
+	switch pkgClass {
+	case "lists-distinfo":
+		c.pkgE = c18Ptr(c18CvsLine("DESCR") + c18CvsLine("distinfo") + "D/patches////\n")
+	case "lists-other":
+		c.pkgE = c18Ptr(other)
+	case "log-adds-distinfo":
+		c.pkgE = c18Ptr(other)
+		c.pkgL = c18Ptr("A " + c18CvsLine("distinfo"))
+	case "log-removes-distinfo":
+		c.pkgE = c18Ptr(c18CvsLine("distinfo") + other)
+		c.pkgL = c18Ptr("A " + c18CvsLine("PLIST") + "R " + c18CvsLine("distinfo"))
+	case "log-only":
+		c.pkgL = c18Ptr("A " + c18CvsLine("distinfo"))
+	}
+	var e, l strings.Builder
+	e.WriteString(c18CvsLine("patch-zz-other"))
+	for i, n := range names {
+		switch status[i] {
+		case "listed":
+			e.WriteString(c18CvsLine(n))
+		case "unlisted":
+		case "log-added":
+			l.WriteString("A " + c18CvsLine(n))
+		case "log-removed":
+			e.WriteString(c18CvsLine(n))
+			l.WriteString("R " + c18CvsLine(n))
+		case "log-add-remove":
+			l.WriteString("A " + c18CvsLine(n) + "R " + c18CvsLine(n))
+		case "relisted":
+			e.WriteString(c18CvsLine(n))
+			l.WriteString("R " + c18CvsLine(n) + "A " + c18CvsLine(n))
+		case "invalid-line":
+			e.WriteString("/" + n + "/1.1/x/\n") // 5 fields: "Invalid line", no entry
+		case "dir-entry":
+			e.WriteString("D/" + n + "////\n")
+		}
+	}
+	switch patDir {
+	case "entries":
+		c.patE = c18Ptr(e.String())
+		if l.Len() > 0 {
+			c.patL = c18Ptr(l.String())
+		}
+	case "log-only": // Entries.Log without Entries is never read
+		var all strings.Builder
+		for _, n := range names {
+			all.WriteString("A " + c18CvsLine(n))
+		}
+		c.patL = c18Ptr(all.String())
+	}
+	return c
+}
+
+func (c c18Cvs) isNone() bool {
+	return c.pkgE == nil && c.pkgL == nil && c.patE == nil && c.patL == nil
+}
+
+func (c c18Cvs) statusOf(i int) string {
+	if i < len(c.status) {
+		return c.status[i]
+	}
+	return ""
+}
+
+func (c c18Cvs) class(i int) string {
+	pk, pd := c.pkgClass, c.patDir
+	if pk == "" {
+		pk = "none"
+	}
+	if pd == "" {
+		pd = "none"
+	}
+	if pd == "entries" && i < len(c.status) {
+		return pk + "/" + c.status[i]
+	}
+	return pk + "/" + pd
+}
+
+// wantWarn: by construction, is "registered in distinfo but not added to CVS" due for patch i
+func (c c18Cvs) wantWarn(i int) bool {
+	return c18DistinfoCommitted(c.pkgClass) && !c18PatchCommitted(c.patDir, c.statusOf(i))
+}
+
+func (c c18Cvs) replay(rep map[string]any) {
+	rep["cvs_pkg_class"], rep["cvs_patdir"] = c.pkgClass, c.patDir
+	var st []any
+	for _, x := range c.status {
+		st = append(st, x)
+	}
+	rep["cvs_status"] = st
+	rep["cvs_pkg_entries"], rep["cvs_pkg_log"] = c18Opt(c.pkgE), c18Opt(c.pkgL)
+	rep["cvs_patches_entries"], rep["cvs_patches_log"] = c18Opt(c.patE), c18Opt(c.patL)
+}
+
+func c18CvsFromReplay(rep map[string]any) c18Cvs {
+	c := c18Cvs{pkgClass: "none", patDir: "none"}
+	if s, ok := rep["cvs_pkg_class"].(string); ok {
+		c.pkgClass = s
+	}
+	if s, ok := rep["cvs_patdir"].(string); ok {
+		c.patDir = s
+	}
+	if st, ok := rep["cvs_status"].([]any); ok {
+		for _, x := range st {
+			s, _ := x.(string)
+			c.status = append(c.status, s)
+		}
+	}
+	c.pkgE, c.pkgL = c18OptFromReplay(rep["cvs_pkg_entries"]), c18OptFromReplay(rep["cvs_pkg_log"])
+	c.patE, c.patL = c18OptFromReplay(rep["cvs_patches_entries"]), c18OptFromReplay(rep["cvs_patches_log"])
+	return c
+}
+
+// c18WriteCvsDir (re)creates dir/CVS with the two files, or removes it.
+func c18WriteCvsDir(dir string, entries, log *string) error {
+	cvs := filepath.Join(dir, "CVS")
+	if err := os.RemoveAll(cvs); err != nil {
+		return err
+	}
+	if entries == nil && log == nil {
+		return nil
+	}
+	if err := os.MkdirAll(cvs, 0o755); err != nil {
+		return err
+	}
+	if entries != nil {
+		if err := os.WriteFile(filepath.Join(cvs, "Entries"), []byte(*entries), 0o644); err != nil {
+			return err
+		}
+	}
+	if log != nil {
+		if err := os.WriteFile(filepath.Join(cvs, "Entries.Log"), []byte(*log), 0o644); err != nil {
+			return err
+		}
+	}
+	return nil
+}
+
+func (c c18Cvs) write(pkgDir string) error {
+	if err := c18WriteCvsDir(pkgDir, c.pkgE, c.pkgL); err != nil {
+		return err
+	}
+	return c18WriteCvsDir(filepath.Join(pkgDir, "patches"), c.patE, c.patL)
+}
+
+// the oracle request for check_entry_cvs
+func (c c18Cvs) request(name, alg, body, hash, digest string) string {
+	return "cvs " + c18Opt(c.pkgE) + " " + c18Opt(c.pkgL) + " " + c18Opt(c.patE) + " " + c18Opt(c.patL) + " " +
+		hx(name) + " " + hx(alg) + " " + hx(body) + " " + hx(hash) + " " + hx(digest)
+}
+
+// diagnostics on one line of distinfo, by severity.  The hash verdict of
+// checkPatchSha1 is an ERROR (so is "Invalid line"), the CVS remark of
+// checkUncommittedPatch is a WARN: the two are told apart by severity, which is
+// part of the diagnostic's structure, not of its wording.
+type c18Sev struct{ err, warn, note int }
+
+var c18AnyDiagRe = regexp.MustCompile(`(?m)^(ERROR|WARN|NOTE): (?:[^\n: ]*/)?distinfo:(\d+)(?:--\d+)?: `)
+
+func c18DiagsBySeverity(out string) map[int]c18Sev {
+	m := map[int]c18Sev{}
+	for _, g := range c18AnyDiagRe.FindAllStringSubmatch(out, -1) {
+		n, _ := strconv.Atoi(g[2])
+		v := m[n]
+		switch g[1] {
+		case "ERROR":
+			v.err++
+		case "WARN":
+			v.warn++
+		default:
+			v.note++
+		}
+		m[n] = v
+	}
+	return m
+}
+
+// hashReported: a diagnostic other than a warning; cvsWarned: a warning
+func (v c18Sev) hashReported() bool { return v.err+v.note > 0 }
+func (v c18Sev) cvsWarned() bool    { return v.warn > 0 }
+
+// ---------- unit: isCommitted / loadCvsEntries ----------
+
+type c18ComCase struct {
+	entries, log *string
+	base         string
+}
+
+func c18RandomCvsFile(rng *Rng, log bool) *string {
+	if rng.Chance(12) {
+		return nil
+	}
+	names := []string{"patch-aa", "patch-ab", "distinfo", "", "x"}
+	var sb strings.Builder
+	n := rng.Intn(6)
+	for i := 0; i < n; i++ {
+		nm := Pick(rng, names)
+		l := Pick(rng, []string{
+			"/" + nm + "/1.1/ts//", "/" + nm + "/1.1/ts/-kb/T1", "D/" + nm + "////", "/" + nm + "/1/", "/" + nm + "/1/2/3/4/5",
+			"/" + nm + "/////", nm + "/1.1/ts//", "", "//" + nm + "/1.1/ts/", "/" + nm + "/1.1/ts//\r",
+		})
+		if log || rng.Chance(10) {
+			l = Pick(rng, []string{"A ", "R ", "A ", "R ", "a ", "A", "R  ", "", "AR "}) + l
+		}
+		sb.WriteString(l)
+		if i < n-1 || !rng.Chance(15) {
+			sb.WriteString("\n")
+		}
+	}
+	return c18Ptr(sb.String())
+}
+
+func c18SortedSet(xs []string) []string {
+	m := map[string]bool{}
+	for _, x := range xs {
+		m[x] = true
+	}
+	return sortedKeys(m)
+}
+
+// c18CheckCommitted: isCommitted and loadCvsEntries (shim) on generated
+// CVS/Entries and CVS/Entries.Log files against Model.PatchSum.is_committed / load_cvs_entries.
+func c18CheckCommitted(ctx *Ctx, res *Result, cases []c18ComCase) {
+	dir, cleanup := c18ScratchDir(ctx, "c18cvs")
+	defer cleanup()
+	if dir == "" {
+		res.Broken = "no scratch directory"
+		return
+	}
+	reqs := make([]string, len(cases))
+	for i, c := range cases {
+		reqs[i] = "com " + c18Opt(c.entries) + " " + c18Opt(c.log) + " " + hx(c.base)
+	}
+	ans, err := runOracle(ctx, "c18", reqs)
+	if err != nil {
+		res.Broken = err.Error()
+		return
+	}
+	for i, c := range cases {
+		if err := c18WriteCvsDir(dir, c.entries, c.log); err != nil {
+			res.Broken = err.Error()
+			return
+		}
+		committed, keys, isNil, _, panicked := pkglint.VerifIsCommitted(dir, c.base)
+		rep := map[string]any{"kind": "committed", "entries": c18Opt(c.entries), "log": c18Opt(c.log), "base": hx(c.base)}
+		size := 1 + len(c.base)
+		if c.entries != nil {
+			size += len(*c.entries)
+		}
+		if c.log != nil {
+			size += len(*c.log)
+		}
+		if panicked != "" {
+			rep["impl"] = panicked
+			res.AddViolation(Violation{Key: "C18/cvs/panic", What: "isCommitted panics: " + panicked, FoundInput: true, Size: size, Replay: rep})
+			continue
+		}
+		f := strings.Fields(ans[i])
+		if len(f) != 2 {
+			res.Broken = "oracle answer " + q(ans[i])
+			return
+		}
+		var mkeys []string
+		modelNil := f[0] == "nil"
+		if !modelNil && f[0] != "empty" {
+			for _, k := range strings.Split(f[0], ",") {
+				mkeys = append(mkeys, unhx(k))
+			}
+		}
+		implSet, modelSet := strings.Join(c18SortedSet(keys), "\x00"), strings.Join(c18SortedSet(mkeys), "\x00")
+		if committed != (f[1] == "1") || isNil != modelNil || implSet != modelSet {
+			rep["broken"] = "correspondence isCommitted / loadCvsEntries = Model.PatchSum.is_committed / load_cvs_entries"
+			res.AddViolation(Violation{Key: "C18/correspondence/is-committed",
+				What: fmt.Sprintf("CVS/Entries %s, Entries.Log %s, file %q: implementation committed=%v nil=%v keys=%q, model committed=%s keys=%q",
+					c18Show(c.entries), c18Show(c.log), c.base, committed, isNil, c18SortedSet(keys), f[1], c18SortedSet(mkeys)),
+				FoundInput: false, Size: size, Replay: rep})
+		}
+		switch {
+		case isNil:
+			res.Count("com.no_entries_file", 1)
+		case committed:
+			res.Count("com.committed", 1)
+		default:
+			res.Count("com.not_committed", 1)
+		}
+		if c.log != nil && c.entries != nil && (strings.Contains(*c.log, "A /") || strings.Contains(*c.log, "R /")) {
+			res.Count("com.log_applied", 1)
+		}
+	}
+	res.Evaluations += len(cases)
+	res.TracesValidated += len(cases)
+}
+
+func c18Show(p *string) string {
+	if p == nil {
+		return "(absent)"
+	}
+	return q(*p)
+}
+
+// ---------- unit: the digest must not depend on earlier calls ----------
+
+type c18Call struct{ path, body string }
+
+func c18RunCalls(dir string, calls []c18Call) (last string, panicked string) {
+	pkglint.VerifC18Reset()
+	for _, c := range calls {
+		last, panicked = pkglint.VerifComputePatchSha1Hex(filepath.Join(dir, c.path), c.body)
+		if panicked != "" {
+			return
+		}
+	}
+	return
+}
+
+// c18CheckHistory: sequences of computePatchSha1Hex calls on a few paths, the
+// same path being rewritten with other content between calls, without any
+// reset in between; every result is compared with the reference digest.
+func c18CheckHistory(ctx *Ctx, res *Result, seqs [][]c18Call) {
+	dir, cleanup := c18ScratchDir(ctx, "c18hist")
+	defer cleanup()
+	if dir == "" || os.MkdirAll(filepath.Join(dir, "sub"), 0o755) != nil {
+		res.Broken = "no scratch directory"
+		return
+	}
+	var reqs []string
+	for _, s := range seqs {
+		for _, c := range s {
+			reqs = append(reqs, "dig "+hx(c.body))
+		}
+	}
+	ans, err := runOracle(ctx, "c18", reqs)
+	if err != nil {
+		res.Broken = err.Error()
+		return
+	}
+	k := 0
+	for _, s := range seqs {
+		pkglint.VerifC18Reset()
+		seen := map[string]string{}
+		for j, c := range s {
+			f := strings.Fields(ans[k])
+			k++
+			if len(f) != 2 {
+				res.Broken = "oracle answer " + q(ans[k-1])
+				return
+			}
+			ref := c18Sha1(unhx(f[1]))
+			got, panicked := pkglint.VerifComputePatchSha1Hex(filepath.Join(dir, c.path), c.body)
+			if old, ok := seen[c.path]; ok && old != c.body {
+				res.Count("hist.same_path_other_body", 1)
+			} else if ok {
+				res.Count("hist.same_path_same_body", 1)
+			}
+			seen[c.path] = c.body
+			res.Count("hist.calls", 1)
+			if got == ref && panicked == "" {
+				continue
+			}
+			// shrink: drop earlier calls as long as the re-executed sequence still ends in a wrong digest
+			cur := append([]c18Call{}, s[:j+1]...)
+			wrong := func(cs []c18Call) bool {
+				g, p := c18RunCalls(dir, cs)
+				return g != ref || p != ""
+			}
+			if !wrong(cur) {
+				res.AddViolation(Violation{Key: "C18/history/not-reproducible", What: fmt.Sprintf("call %d of a sequence gave %s instead of %s, the same sequence re-executed does not", j, got, ref),
+					FoundInput: false, Size: len(cur), Replay: map[string]any{"kind": "history", "calls": c18CallsReplay(cur), "broken": "a digest differed once and not when the sequence was re-executed"}})
+				break
+			}
+			for i := 0; i < len(cur)-1; {
+				cand := append(append([]c18Call{}, cur[:i]...), cur[i+1:]...)
+				if wrong(cand) {
+					cur = cand
+				} else {
+					i++
+				}
+			}
+			size := 0
+			for _, x := range cur {
+				size += 10 + len(x.body)
+			}
+			rep := map[string]any{"kind": "history", "calls": c18CallsReplay(cur), "impl": got, "makepatchsum": ref}
+			if len(cur) == 1 {
+				res.AddViolation(Violation{Key: "C18/digest/differs-from-makepatchsum",
+					What:       fmt.Sprintf("patch body %q in %s: pkglint computes %s, makepatchsum gives %s", c.body, c.path, got, ref),
+					FoundInput: true, Size: size, Replay: rep})
+			} else {
+				res.AddViolation(Violation{Key: "C18/history/digest-depends-on-earlier-calls",
+					What: fmt.Sprintf("computePatchSha1Hex(%s = %q) gives %s after %d earlier call(s) %s, but %s (= makepatchsum) when called first",
+						c.path, c.body, got, len(cur)-1, c18ShowCalls(cur[:len(cur)-1]), ref),
+					FoundInput: true, Size: size, Replay: rep})
+			}
+			break
+		}
+		res.Count("hist.sequences", 1)
+	}
+	res.Evaluations += k
+	res.TracesValidated += k
+}
+
+func c18CallsReplay(cs []c18Call) []any {
+	var out []any
+	for _, c := range cs {
+		out = append(out, map[string]any{"path": c.path, "body": hx(c.body)})
+	}
+	return out
+}
+
+func c18ShowCalls(cs []c18Call) string {
+	var parts []string
+	for _, c := range cs {
+		parts = append(parts, fmt.Sprintf("(%s, %q)", c.path, c.body))
+	}
+	return strings.Join(parts, " ")
+}
+
+func c18RandomHistory(rng *Rng) []c18Call {
+	// "patch-cc.mk": a patch for a file named *.mk; Load caches *.mk files on purpose, its body stays the same within one sequence
+	paths := []string{"patch-aa", "patch-aa", "patch-ab", "sub/patch-aa", "patch-cc.mk"}
+	mkBody := c18RandomBody(rng)
+	small := []string{"", "x\n", "$NetBSD$\n", "$NetBSD$\nx\n", "x", "y\n", "x\n$NetBSD: x $\ny\n"}
+	n := 2 + rng.Intn(7)
+	var out []c18Call
+	for i := 0; i < n; i++ {
+		c := c18Call{path: Pick(rng, paths)}
+		switch {
+		case c.path == "patch-cc.mk":
+			c.body = mkBody
+		case i > 0 && rng.Chance(20):
+			c.body = out[rng.Intn(len(out))].body // the same content again, maybe under another path
+			if out[len(out)-1].path == "patch-cc.mk" && c.body == mkBody && rng.Chance(50) {
+				c.body = Pick(rng, small)
+			}
+		case rng.Chance(50):
+			c.body = Pick(rng, small)
+		default:
+			c.body = c18RandomBody(rng)
+		}
+		out = append(out, c)
+	}
+	return out
+}
+
+// ---------- extraction cross-check ----------
+
+func c18CoqStr(s string) string {
+	parts := make([]string, len(s))
+	for i := 0; i < len(s); i++ {
+		parts[i] = strconv.Itoa(int(s[i]))
+	}
+	return "[" + strings.Join(parts, ";") + "]"
+}
+
+func c18CoqOpt(h string) string { // N | hex
+	if h == "N" {
+		return "None"
+	}
+	return "(Some " + c18CoqStr(unhx(h)) + ")"
+}
+
+func c18CoqList(h string, empty string) string { // hex,hex,... ; `empty` denotes the empty list
+	if h == empty {
+		return "[]"
+	}
+	var parts []string
+	for _, x := range strings.Split(h, ",") {
+		parts = append(parts, c18CoqStr(unhx(x)))
+	}
+	return "[" + strings.Join(parts, "; ") + "]"
+}
+
+func c18CoqVerdict(f []string) (string, bool) {
+	switch {
+	case len(f) == 1 && f[0] == "silent":
+		return "Silent", true
+	case len(f) == 1 && f[0] == "missing":
+		return "DoesNotExist", true
+	case len(f) == 3 && f[0] == "differs":
+		return "(Differs " + c18CoqStr(unhx(f[1])) + " " + c18CoqStr(unhx(f[2])) + ")", true
+	}
+	return "", false
+}
+
+func c18CoqGate(ans string) (string, bool) {
+	f := strings.Fields(ans)
+	if len(f) < 2 || (f[0] != "0" && f[0] != "1") {
+		return "", false
+	}
+	w := "false"
+	if f[0] == "1" {
+		w = "true"
+	}
+	if len(f) == 2 && f[1] == "none" {
+		return "Ok (" + w + ", None)", true
+	}
+	v, ok := c18CoqVerdict(f[1:])
+	return "Ok (" + w + ", Some " + v + ")", ok
+}
+
+// c18CrossCheckExtraction re-evaluates <= 200 oracle requests (every request
+// kind, i.e. every extracted function) with coqc's vm_compute on the Gallina model.
+func c18CrossCheckExtraction(ctx *Ctx, res *Result, reqs []string) {
+	if len(reqs) > 200 {
+		reqs = reqs[:200]
+	}
+	ans, err := runOracle(ctx, "c18", reqs)
+	if err != nil {
+		res.Broken = err.Error()
+		return
+	}
+	var sb strings.Builder
+	sb.WriteString("From PV Require Import Lib.Bytes Model.Lines Model.PatchSum Spec.PatchSumSpec.\nOpen Scope N_scope.\n")
+	kinds := map[string]int{}
+	for i, r := range reqs {
+		a := strings.Fields(r)
+		var lhs, rhs string
+		ok := true
+		switch {
+		case a[0] == "dig" && len(a) == 2:
+			f := strings.Fields(ans[i])
+			ok = len(f) == 2
+			if ok {
+				lhs = fmt.Sprintf("match convert_to_logical_lines %s false with Ok (ls, _) => Some (hashed_bytes ls, makepatchsum_filter %s) | _ => None end", c18CoqStr(unhx(a[1])), c18CoqStr(unhx(a[1])))
+				rhs = fmt.Sprintf("Some (%s, %s)", c18CoqStr(unhx(f[0])), c18CoqStr(unhx(f[1])))
+			}
+		case a[0] == "chk" && len(a) == 4:
+			lhs = fmt.Sprintf("check_patch_sha1 (fun _ => %s) (Some %s) %s", c18CoqStr(unhx(a[3])), c18CoqStr(unhx(a[1])), c18CoqStr(unhx(a[2])))
+			rhs, ok = c18CoqVerdict(strings.Fields(ans[i]))
+		case a[0] == "repl" && len(a) == 4:
+			lhs = fmt.Sprintf("autofix_replace %s %s %s", c18CoqList(a[3], ""), c18CoqStr(unhx(a[1])), c18CoqStr(unhx(a[2])))
+			rhs = c18CoqList(ans[i], "")
+		case a[0] == "fixl" && len(a) == 4:
+			lhs = fmt.Sprintf("fix_distinfo_line %s (Differs %s %s)", c18CoqList(a[3], ""), c18CoqStr(unhx(a[1])), c18CoqStr(unhx(a[2])))
+			rhs = c18CoqList(ans[i], "")
+		case a[0] == "com" && len(a) == 4:
+			f := strings.Fields(ans[i])
+			ok = len(f) == 2
+			if ok {
+				d := fmt.Sprintf("(mk_cvs_dir %s %s)", c18CoqOpt(a[1]), c18CoqOpt(a[2]))
+				lhs = fmt.Sprintf("(load_cvs_entries %s, is_committed %s %s)", d, d, c18CoqStr(unhx(a[3])))
+				es := "None"
+				if f[0] != "nil" {
+					es = "(Some " + c18CoqList(f[0], "empty") + ")"
+				}
+				rhs = fmt.Sprintf("(Ok %s, Ok %v)", es, f[1] == "1")
+			}
+		case a[0] == "hnd" && len(a) == 4:
+			lhs = fmt.Sprintf("cvs_handle %s %v %s", c18CoqList(a[1], "empty"), a[2] == "1", c18CoqStr(unhx(a[3])))
+			rhs = c18CoqList(ans[i], "empty")
+		case a[0] == "logl" && len(a) == 3:
+			lhs = fmt.Sprintf("cvs_log_line %s %s", c18CoqList(a[1], "empty"), c18CoqStr(unhx(a[2])))
+			rhs = c18CoqList(ans[i], "empty")
+		case a[0] == "unc" && len(a) == 9:
+			lhs = fmt.Sprintf("check_uncommitted_patch (fun _ => %s) %v (mk_cvs_dir %s %s) %s %s %s %s", c18CoqStr(unhx(a[8])), a[1] == "1",
+				c18CoqOpt(a[2]), c18CoqOpt(a[3]), c18CoqStr(unhx(a[4])), c18CoqStr(unhx(a[5])), c18CoqOpt(a[6]), c18CoqStr(unhx(a[7])))
+			rhs, ok = c18CoqGate(ans[i])
+		case a[0] == "cvs" && len(a) == 10:
+			lhs = fmt.Sprintf("check_entry_cvs (fun _ => %s) (mk_cvs_dir %s %s) (mk_cvs_dir %s %s) %s %s %s %s", c18CoqStr(unhx(a[9])),
+				c18CoqOpt(a[1]), c18CoqOpt(a[2]), c18CoqOpt(a[3]), c18CoqOpt(a[4]), c18CoqStr(unhx(a[5])), c18CoqStr(unhx(a[6])), c18CoqOpt(a[7]), c18CoqStr(unhx(a[8])))
+			rhs, ok = c18CoqGate(ans[i])
+		default:
+			ok = false
+		}
+		if !ok {
+			res.Broken = "cross-check: request " + q(r) + " answer " + q(ans[i])
+			return
+		}
+		kinds[a[0]]++
+		fmt.Fprintf(&sb, "Example case_%d : %s = %s.\nProof. vm_compute. reflexivity. Qed.\n", i, lhs, rhs)
+	}
+	for _, k := range []string{"dig", "chk", "repl", "fixl", "com", "hnd", "logl", "unc", "cvs"} {
+		if kinds[k] < 5 {
+			res.Broken = "cross-check: fewer than 5 requests of kind " + k
+			return
+		}
+	}
+	file := filepath.Join(ctx.Work, "c18cases.v")
+	if err := os.WriteFile(file, []byte(sb.String()), 0o644); err != nil {
+		res.Broken = err.Error()
+		return
+	}
+	cmd := exec.Command("timeout", "600", "coqc", "-Q", filepath.Join(ctx.Verif, "coq"), "PV", file)
+	cmd.Dir = ctx.Work
+	out, err := cmd.CombinedOutput()
+	if err != nil {
+		msg := string(out)
+		if len(msg) > 600 {
+			msg = msg[:600]
+		}
+		res.AddViolation(Violation{Key: "C18/extraction-vs-vm_compute",
+			What:       "the extracted oracle and coqc's vm_compute disagree on the model (or coqc failed): " + msg,
+			FoundInput: false, Replay: map[string]any{"broken": "extraction cross-check", "detail": msg}})
+		return
+	}
+	res.Count("vm_compute_cross_checked", len(reqs))
+}
+
+func c18CrossRequests(rng *Rng) []string {
+	var reqs []string
+	bodies := []string{"", "x", "a\n$NetBSD: x $\r\nb", "$NetBSD$\n", "x\ny"}
+	names := []string{"patch-aa", "distinfo", "x", "patch-ab"}
+	for i := 0; i < 22; i++ {
+		b := Pick(rng, bodies)
+		if i >= 5 {
+			b = c18RandomBody(rng)
+			if len(b) > 120 {
+				b = b[:120]
+			}
+		}
+		reqs = append(reqs, "dig "+hx(b))
+		h := Pick(rng, []string{"30", "3031", hx(b)})
+		reqs = append(reqs, "chk "+hx(b)+" "+Pick(rng, []string{"30", "31", h})+" "+h)
+		e, l := c18RandomCvsFile(rng, false), c18RandomCvsFile(rng, true)
+		e2, l2 := c18RandomCvsFile(rng, false), c18RandomCvsFile(rng, true)
+		nm := Pick(rng, names)
+		reqs = append(reqs, "com "+c18Opt(e)+" "+c18Opt(l)+" "+hx(nm))
+		alg := Pick(rng, []string{"SHA1", "SHA1", "SHA512", "sha1"})
+		body := hx(b)
+		if rng.Chance(10) {
+			body = "N"
+		}
+		reqs = append(reqs, "unc "+bit(rng.Bool())+" "+c18Opt(e2)+" "+c18Opt(l2)+" "+hx(nm)+" "+hx(alg)+" "+body+" "+Pick(rng, []string{"30", h})+" "+h)
+		reqs = append(reqs, "cvs "+c18Opt(e)+" "+c18Opt(l)+" "+c18Opt(e2)+" "+c18Opt(l2)+" "+hx(nm)+" "+hx(alg)+" "+body+" "+Pick(rng, []string{"30", h})+" "+h)
+		keys := Pick(rng, []string{"empty", hx("patch-aa"), hx("x") + "," + hx("patch-aa") + "," + hx("x"), "-"})
+		text := Pick(rng, []string{"/x/1/2//", "/patch-aa/1/2//", "/x/1/", "D/x////", "", "//////", "/x/1/2///"})
+		reqs = append(reqs, "hnd "+keys+" "+bit(rng.Bool())+" "+hx(text))
+		reqs = append(reqs, "logl "+keys+" "+hx(Pick(rng, []string{"A ", "R ", "a ", "A", ""})+text))
+		c := c18ReplaceCases(rng, 1)[0]
+		reqs = append(reqs, "repl "+hx(c.prefix+c.from)+" "+hx(c.prefix+c.to)+" "+hx(c.text))
+		reqs = append(reqs, "fixl "+hx(c.from)+" "+hx(c.to)+" "+hx(c.text))
+	}
+	return reqs
+}
+
 // ---------- entry points ----------
 
 func runC18(ctx *Ctx) *Result {
-	res := &Result{Rule: "unit: every patch body of <= L tokens over {$NetBSD, $, N, x, LF, CR} (distinct strings), then seeded random bodies (patch-like text with tags anywhere, CRLF, lone CR, empty lines, non-ASCII, with/without final newline; raw token strings); then every body of <= L2 tokens over the second alphabet {BOM, U+00FC, NUL, CR, FF, x, LF, $NetBSD} (hostile bytes at position 0 and at line starts); every digest goes through Load(file, 0); non-trivial = the body contains $NetBSD (a line is removed); distinct by body. Entries: CheckLinesDistinfo (shim) on one patch + one SHA1 entry in default and --autofix mode, entry = the correct digest or a near miss of it (upper / mixed case, one digit changed at 3 positions, truncated / extended by one digit at either end, all zero, blank next to the hash). Replace: distinfo entry lines with the stale hash once / twice / overlapping. Whole runs: generated packages with 1-4 patches, entries correct / stale / wrong, plus directed corner scenarios; each = default run, -F, default run of the real binary."}
+	res := &Result{Rule: "unit: every patch body of <= L tokens over {$NetBSD, $, N, x, LF, CR} (distinct strings), then seeded random bodies (patch-like text with tags anywhere, CRLF, lone CR, empty lines, non-ASCII, with/without final newline; raw token strings); then every body of <= L2 tokens over the second alphabet {BOM, U+00FC, NUL, CR, FF, x, LF, $NetBSD} (hostile bytes at position 0 and at line starts); every digest goes through Load(file, 0); non-trivial = the body contains $NetBSD (a line is removed); distinct by body. Entries: CheckLinesDistinfo (shim) on one patch + one SHA1 entry in default and --autofix mode, entry = the correct digest or a near miss of it (upper / mixed case, one digit changed at 3 positions, truncated / extended by one digit at either end, all zero, blank next to the hash). Every entry in one of 60 CVS working-copy states (package CVS/Entries(.Log) listing distinfo or not x patches/CVS absent / Entries listing the patch, not listing it, adding or removing it through Entries.Log, malformed lines): same verdict about the hash in every state, the CVS warning exactly when distinfo is committed and the patch is not. isCommitted on generated Entries files; call histories of computePatchSha1Hex (same path rewritten). Replace: distinfo entry lines with the stale hash once / twice / overlapping. Whole runs: generated packages with 1-4 patches, entries correct / stale / wrong, plus directed corner scenarios; each = default run, -F, default run of the real binary."}
 	rng := NewRng(ctx.Seed)
 	maxTok, nrand, nrepl, npkg := 6, 10000, 2000, 200
 	maxTok2, entryTok, nentryRand := 4, 3, 300
+	ncom, nhist := 3000, 400
 	if ctx.Tier == "thorough" {
 		maxTok, nrand, nrepl, npkg = 7, 300000, 50000, 3000
 		maxTok2, entryTok, nentryRand = 6, 4, 5000
+		ncom, nhist = 100000, 20000
 	}
 	t0 := time.Now()
 	lap := func(what string) {
@@ -964,21 +1757,82 @@ func runC18(ctx *Ctx) *Result {
 	for i := 0; i < nentryRand; i++ {
 		ebodies = append(ebodies, c18RandomBody(rng))
 	}
+	// every entry is checked in one CVS working-copy state; the states rotate through all
+	// combinations of package-directory class, patches-directory class and patch status
+	var cvsStates []c18Cvs
+	for _, pk := range c18PkgClasses {
+		for _, pd := range c18PatDirs {
+			if pd != "entries" {
+				cvsStates = append(cvsStates, c18BuildCvs(pk, pd, []string{"patch-aa"}, []string{"unlisted"}))
+				continue
+			}
+			for _, st := range c18PatStatuses {
+				cvsStates = append(cvsStates, c18BuildCvs(pk, pd, []string{"patch-aa"}, []string{st}))
+			}
+		}
+	}
+	nstate := 0
+	nextState := func() c18Cvs {
+		nstate++
+		if nstate%4 == 0 { // a quarter of the entries: no CVS directories at all, as before
+			return cvsStates[0]
+		}
+		return cvsStates[(nstate/4*3+nstate%4)%len(cvsStates)]
+	}
 	for i, b := range ebodies {
 		if i%8 == 0 {
 			for _, k := range allKinds {
-				entries = append(entries, c18Entry{b, k})
+				entries = append(entries, c18Entry{b, k, nextState()})
 			}
 			continue
 		}
-		entries = append(entries, c18Entry{b, "correct"})
+		entries = append(entries, c18Entry{b, "correct", nextState()})
 		for k := 0; k < 3; k++ {
-			entries = append(entries, c18Entry{b, c18NearKinds[(i+k*3)%len(c18NearKinds)]})
+			entries = append(entries, c18Entry{b, c18NearKinds[(i+k*3)%len(c18NearKinds)], nextState()})
+		}
+	}
+	// and the full product: every CVS state x {right hash, two wrong ones} on a few bodies
+	for i := 0; i < 12 && i < len(ebodies); i++ {
+		b := ebodies[len(ebodies)-1-i]
+		for _, st := range cvsStates {
+			for _, k := range []string{"correct", "digit19", "zero"} {
+				entries = append(entries, c18Entry{b, k, st})
+			}
 		}
 	}
 	lap("digests")
 	c18CheckEntries(ctx, res, entries)
 	lap("entries")
+	if res.Broken != "" {
+		return res
+	}
+	// isCommitted / loadCvsEntries on generated CVS/Entries and Entries.Log files
+	var coms []c18ComCase
+	for _, st := range cvsStates {
+		coms = append(coms, c18ComCase{st.pkgE, st.pkgL, "distinfo"}, c18ComCase{st.patE, st.patL, "patch-aa"})
+	}
+	for i := 0; i < ncom; i++ {
+		coms = append(coms, c18ComCase{c18RandomCvsFile(rng, false), c18RandomCvsFile(rng, true), Pick(rng, []string{"patch-aa", "patch-ab", "distinfo", "x"})})
+	}
+	c18CheckCommitted(ctx, res, coms)
+	if res.Broken != "" {
+		return res
+	}
+	// the digest as a function of the file alone: call histories
+	var seqs [][]c18Call
+	seqs = append(seqs,
+		[]c18Call{{"patch-aa", "x\n"}, {"patch-aa", "y\n"}},
+		[]c18Call{{"patch-aa", "x\n"}, {"patch-ab", "x\n"}, {"patch-aa", ""}},
+		[]c18Call{{"patch-aa", "$NetBSD$\nx\n"}, {"patch-aa", "$NetBSD$\nx\n"}, {"patch-aa", "$NetBSD$\n"}, {"patch-aa", "x\n"}})
+	for i := 0; i < nhist; i++ {
+		seqs = append(seqs, c18RandomHistory(rng))
+	}
+	c18CheckHistory(ctx, res, seqs)
+	if res.Broken != "" {
+		return res
+	}
+	c18CrossCheckExtraction(ctx, res, c18CrossRequests(rng))
+	lap("cvs_history_crosscheck")
 	if res.Broken != "" {
 		return res
 	}
@@ -988,28 +1842,60 @@ func runC18(ctx *Ctx) *Result {
 	}
 	scs := c18DirectedScenarios()
 	for i := 0; i < npkg; i++ {
-		scs = append(scs, c18RandomScenario(rng))
+		scs = append(scs, c18RandomScenario(rng, i))
 	}
 	lap("replace")
 	c18WholeRuns(ctx, res, scs)
 	lap("whole_runs")
 	res.Exhaustive = false
 	res.Count("exhaustive_max_tokens", maxTok)
-	floors := map[string]int{
+	// floors the generators alone decide about: missing one is a fault of this check
+	genFloors := map[string]int{
 		"unit.bodies_with_tag": 5000, "unit.tag_and_kept_bytes": 2000, "unit.tag_in_unterminated_tail": 500, "unit.tag_with_cr": 500,
 		"replace.fired": 200, "replace.refused": 200,
 		"unit.hostile_first_byte_hashed": 1000,
+		"hist.sequences":                 nhist, "hist.same_path_other_body": nhist / 2, "hist.same_path_same_body": nhist / 10,
+	}
+	for _, k := range sortedKeys(genFloors) {
+		if n, _ := res.Distribution[k].(int); n < genFloors[k] && res.Broken == "" && len(res.Violations) == 0 {
+			res.Broken = fmt.Sprintf("coverage floor missed: %s = %d < %d", k, n, genFloors[k])
+		}
+	}
+	// floors that are only counted after the implementation did its part (a run that ended
+	// normally, an entry that was checked without a panic, a diagnostic that was seen):
+	// missing one means the correspondence is not established -- a violation without a found input
+	implFloors := map[string]int{
 		"entry.correct": 500, "entry.upper": 200, "entry.mixed": 200, "entry.digit0": 200, "entry.digit39": 200, "entry.truncated": 200, "entry.extended": 200, "entry.blank-after": 50,
 		"w.packages": npkg * 9 / 10, "w.entries_correct": npkg / 4, "w.entries_stale": npkg / 5, "w.entries_wrong": npkg / 8, "w.entries_near": npkg / 3, "w.entries_near:upper": npkg / 40, "w.entries_near:mixed": npkg / 40, "w.entries_fixed": npkg / 3,
+		"cvs.warn_expected=true.hash_right=true": 300, "cvs.warn_expected=true.hash_right=false": 600,
+		"cvs.warn_expected=false.hash_right=true": 600, "cvs.warn_expected=false.hash_right=false": 1200,
+		"cvs.warning_and_hash_error_on_one_line":   600,
+		"w.cvs.warn_expected=true.hash_right=true": npkg / 10, "w.cvs.warn_expected=true.hash_right=false": npkg / 5,
+		"w.cvs.warn_expected=false.hash_right=true": npkg / 10, "w.cvs.warn_expected=false.hash_right=false": npkg / 5,
+		"w.cvs.warning_and_hash_error_on_one_line": npkg / 5,
+		"com.no_entries_file":                      100, "com.committed": 200, "com.not_committed": 500, "com.log_applied": 300,
 	}
-	for _, k := range sortedKeys(floors) {
-		if n, _ := res.Distribution[k].(int); n < floors[k] && res.Broken == "" && len(res.Violations) == 0 {
-			res.Broken = fmt.Sprintf("coverage floor missed: %s = %d < %d", k, n, floors[k])
+	for _, st := range cvsStates {
+		implFloors["cvs.class."+st.class(0)] = 30
+	}
+	for _, pk := range c18PkgClasses {
+		implFloors["w.cvs.class."+pk+"/none"] = npkg / 200
+		implFloors["w.cvs.class."+pk+"/listed"] = npkg / 200
+		implFloors["w.cvs.class."+pk+"/unlisted"] = npkg / 200
+	}
+	for _, st := range c18PatStatuses {
+		implFloors["w.cvs.class.lists-distinfo/"+st] = npkg / 50
+	}
+	for _, k := range sortedKeys(implFloors) {
+		if n, _ := res.Distribution[k].(int); n < implFloors[k] && res.Broken == "" && len(res.Violations) == 0 {
+			res.AddViolation(Violation{Key: "C18/coverage/floor-missed", What: fmt.Sprintf("coverage floor missed: %s = %d < %d (the implementation did not get that far often enough)", k, n, implFloors[k]),
+				FoundInput: false, Replay: map[string]any{"broken": "coverage floor " + k, "floor": implFloors[k], "got": n}})
 		}
 	}
 	res.Assumptions = []string{
 		"SHA-1 is computed by Go's crypto/sha1 on the harness side; the model and the specification only determine the bytes that are hashed",
-		"a diagnostic is attributed to a distinfo entry by its file:line prefix",
+		"a diagnostic is attributed to a distinfo entry by its file:line prefix; on one line the verdict about the hash (ERROR, also NOTE) and the remark about CVS (WARN) are told apart by severity only",
+		"the CVS state is given by the files CVS/Entries and CVS/Entries.Log of the package directory and of patches/; which of the generated files list a name is known by construction",
 	}
 	return res
 }
@@ -1023,7 +1909,21 @@ func replayC18(ctx *Ctx, rep map[string]any) *Result {
 	case "entry":
 		b, _ := rep["body"].(string)
 		k, _ := rep["entry"].(string)
-		c18CheckEntries(ctx, res, []c18Entry{{unhx(b), k}})
+		c18CheckEntries(ctx, res, []c18Entry{{unhx(b), k, c18CvsFromReplay(rep)}})
+	case "committed":
+		b, _ := rep["base"].(string)
+		c18CheckCommitted(ctx, res, []c18ComCase{{c18OptFromReplay(rep["entries"]), c18OptFromReplay(rep["log"]), unhx(b)}})
+	case "history":
+		var calls []c18Call
+		if cs, ok := rep["calls"].([]any); ok {
+			for _, x := range cs {
+				m, _ := x.(map[string]any)
+				pth, _ := m["path"].(string)
+				body, _ := m["body"].(string)
+				calls = append(calls, c18Call{pth, unhx(body)})
+			}
+		}
+		c18CheckHistory(ctx, res, [][]c18Call{calls})
 	case "replace":
 		t, _ := rep["text"].(string)
 		f, _ := rep["from"].(string)
@@ -1036,6 +1936,7 @@ func replayC18(ctx *Ctx, rep map[string]any) *Result {
 	case "package":
 		sc := c18Scenario{}
 		sc.kind, _ = rep["scenario"].(string)
+		sc.cvs = c18CvsFromReplay(rep)
 		if ps, ok := rep["patches"].([]any); ok {
 			for _, x := range ps {
 				m, _ := x.(map[string]any)
